@@ -171,7 +171,13 @@ impl Oplog {
                     let mut entries: Vec<Entry> = Vec::new();
                     let mut partials: Vec<bool> = Vec::new();
                     let mut entries_byte_length: usize = 0;
+                    let header_bit = outcome.oplog.get_current_header_bit();
                     while let Some(entry_outcome) = Self::validate_leader(entries_buff)? {
+                        if entry_outcome.header_bit != header_bit {
+                            // Entry belongs to an older header that has since been
+                            // flushed: the truncation after that flush did not happen.
+                            break;
+                        }
                         let res = Entry::decode(entry_outcome.state)?;
                         entries.push(res.0);
                         entries_byte_length += entries_buff.len() - res.1.len();
